@@ -246,7 +246,12 @@ Inductive bcase :=
 | BStdout (now : Z) (obs : list item)
 | BEvent (src : evobs) (wire : str) (lexed : evobs)
 | BNewRelic (pb mode : N) (f3 : bool) (prefix : str) (now interval : Z) (pft : pftab) (obs : list (list item)).
-Record c17case := C17 { c_mask : mask; c_map : fmap; c_tab : ptab; c_backends : list bcase }.
+(* one flush: a map and what the backends emitted for it *)
+Record c17flush := C17 { c_mask : mask; c_map : fmap; c_tab : ptab; c_backends : list bcase }.
+(* a case: one flush, or -- stream "sequence" -- the successful flushes of several consecutive ones
+   through ONE backend instance (others in between were made to fail): each is checked exactly like a
+   single flush, so anything a failed or earlier flush leaves behind in a later payload shows *)
+Definition c17case := list c17flush.
 
 Definition check_b (mk : mask) (m : fmap) (t : ptab) (b : bcase) : bool :=
   match b with
@@ -298,8 +303,9 @@ Definition check_b (mk : mask) (m : fmap) (t : ptab) (b : bcase) : bool :=
           (f3 || items_perm (concat obs) (concat groups)) && dd_structure_gen f3 pb obs groups
       end
   end.
-Definition check_case (c : c17case) : bool :=
+Definition check_flush (c : c17flush) : bool :=
   forallb (check_b (c_mask c) (c_map c) (c_tab c)) (c_backends c).
+Definition check_case (c : c17case) : bool := forallb check_flush c.
 
 (* for a failing case: per failing backend a marker item naming it, then the model's payloads *)
 Definition lines_items (bs : list (list str)) : list (list item) := map (map line_item) bs.
@@ -319,6 +325,8 @@ Definition explain_b (mk : mask) (m : fmap) (t : ptab) (b : bcase) : list (list 
       marker [110;101;119;114;101;108;105;99]
       :: match newrelic_payloads (o_s t) (o_parse pft) now interval prefix pb mode mk m with Some b => b | None => [] end
   end.
-Definition explain_case (c : c17case) : list (list item) :=
+Definition explain_flush (c : c17flush) : list (list item) :=
   concat (map (explain_b (c_mask c) (c_map c) (c_tab c))
               (filter (fun b => negb (check_b (c_mask c) (c_map c) (c_tab c) b)) (c_backends c))).
+Definition explain_case (c : c17case) : list (list item) :=
+  concat (map explain_flush (filter (fun f => negb (check_flush f)) c)).
